@@ -49,6 +49,26 @@ MUTANTS = [
      "for note := uint8(0); note < 127; note++ {\n\t\td.outputEvents <- midi.NoteEvent(midi.NoteOff, d.channel", ["C13"]),
     ("c13-panic-resets-counters", DEV, "func (d *Device) Panic() {\n",
      "func (d *Device) Panic() {\n\tfor ch := range d.activeNotesCounter {\n\t\tfor n := range d.activeNotesCounter[ch] {\n\t\t\td.activeNotesCounter[ch][n] = 0\n\t\t}\n\t}\n", ["C13"]),
+    ("c06-scale-128", EVS, "d.outputEvents <- midi.ControlChangeEvent(channel, analog.CC, byte(int(float64(127)*adjustedValue)))\n\t\tcase !canBeNegative && analog.Bidirectional:",
+     "d.outputEvents <- midi.ControlChangeEvent(channel, analog.CC, byte(int(float64(128)*adjustedValue)))\n\t\tcase !canBeNegative && analog.Bidirectional:", ["C06", "C05"]),
+    ("c06-deadzone-ge", EVS, "\t\tif value < deadzone {\n\t\t\tvalue = 0", "\t\tif value <= deadzone+0.02 {\n\t\t\tvalue = 0", ["C06"]),
+    ("c06-forget-flip-centred", EVS, "\t\tif canBeNegative {\n\t\t\tvalue = -value", "\t\tif canBeNegative && !analog.DeadzoneAtCenter {\n\t\t\tvalue = -value", ["C06"]),
+    ("c06-reciprocal", EVS, "value = (value - deadzone) / (1.0 - deadzone)", "value = (value - deadzone) * (1.0 / (1.0 - deadzone))", ["C06"]),
+    ("c06-bend-8191", MIDIEV, "target = 8192 + int(val*8191)", "target = 8191 + int(val*8192)", ["C06"]),
+    ("c06-dedupe-on-raw-sign", EVS, "\tif lastValue == value {\n\t\treturn\n\t}", "\tif lastValue == value || (lastValue > 0.9 && value > 0.9) {\n\t\treturn\n\t}", ["C06"]),
+    ("c06-specific-deadzone-ignored", EVS, "\tdeadzone, ok := d.config.KeyMappings[d.mapping].Deadzones[ie.Source.Name][ie.Event.Code]\n\tif !ok {",
+     "\tdeadzone, ok := d.config.KeyMappings[d.mapping].Deadzones[ie.Source.Name][ie.Event.Code]\n\tif !ok || deadzone == 0.25 {", ["C06"]),
+    ("c07-shared-zero-flag", EVS, "\t\t\t\td.outputEvents <- midi.ControlChangeEvent(channel, analog.CC, byte(int(float64(127)*adjustedValue)))\n\t\t\t\tif !d.ccZeroed[analog.CCNeg] {\n\t\t\t\t\td.outputEvents <- midi.ControlChangeEvent(channelNeg, analog.CCNeg, 0)\n\t\t\t\t\td.ccZeroed[analog.CCNeg] = true\n\t\t\t\t}\n\t\t\t\td.ccZeroed[analog.CC] = false\n\t\t\t}\n\t\tcase canBeNegative && !analog.Bidirectional:",
+     "\t\t\t\td.outputEvents <- midi.ControlChangeEvent(channel, analog.CC, byte(int(float64(127)*adjustedValue)))\n\t\t\t\tif !d.ccZeroed[analog.CC] {\n\t\t\t\t\td.outputEvents <- midi.ControlChangeEvent(channelNeg, analog.CCNeg, 0)\n\t\t\t\t\td.ccZeroed[analog.CC] = true\n\t\t\t\t}\n\t\t\t\td.ccZeroed[analog.CC] = false\n\t\t\t}\n\t\tcase canBeNegative && !analog.Bidirectional:", ["C07"]),
+    ("c07-never-rearm", EVS, "\t\t\t\td.ccZeroed[analog.CCNeg] = false\n\t\t\t} else {\n\t\t\t\td.outputEvents <- midi.ControlChangeEvent(channel, analog.CC, byte(int(float64(127)*adjustedValue)))\n\t\t\t\tif !d.ccZeroed[analog.CCNeg] {\n\t\t\t\t\td.outputEvents <- midi.ControlChangeEvent(channelNeg, analog.CCNeg, 0)\n\t\t\t\t\td.ccZeroed[analog.CCNeg] = true\n\t\t\t\t}\n\t\t\t\td.ccZeroed[analog.CC] = false\n\t\t\t}\n\t\tcase canBeNegative && !analog.Bidirectional:",
+     "\t\t\t} else {\n\t\t\t\td.outputEvents <- midi.ControlChangeEvent(channel, analog.CC, byte(int(float64(127)*adjustedValue)))\n\t\t\t\tif !d.ccZeroed[analog.CCNeg] {\n\t\t\t\t\td.outputEvents <- midi.ControlChangeEvent(channelNeg, analog.CCNeg, 0)\n\t\t\t\t\td.ccZeroed[analog.CCNeg] = true\n\t\t\t\t}\n\t\t\t\td.ccZeroed[analog.CC] = false\n\t\t\t}\n\t\tcase canBeNegative && !analog.Bidirectional:", ["C07"]),
+    ("c07-learning-threshold", EVS, "if d.ccLearning && !(value < -0.5 || value > 0.5) {", "if d.ccLearning && !(value < -0.5 || value > 0.3) {", ["C07"]),
+    ("c08-thresholds-swapped", EVS, "\t\tcase value > -0.49 && value < 0.49:\n\t\t\td.AnalogNoteOff(identifier, ie)", "\t\tcase value > -0.3 && value < 0.3:\n\t\t\td.AnalogNoteOff(identifier, ie)", ["C08"]),
+    ("c08-noteoff-current-transposition", DEV, "\tnote, channel := noteAndChannel[0], noteAndChannel[1]\n\n\tevent := midi.NoteEvent(midi.NoteOff, channel, note, 0)",
+     "\tnote, channel := noteAndChannel[0], d.channel\n\n\tevent := midi.NoteEvent(midi.NoteOff, channel, note, 0)", ["C08", "C01"]),
+    ("c08-negative-plays-positive", PARSER, "noteNeg = byte(*analog.NoteNegative)", "noteNeg = byte(*analog.Note)", ["C08", "C10"]),
+    ("c08-unguarded-negative", EVS, "if !ok && analog.Bidirectional {", "if !ok {", ["C08"]),
+    ("c08-jump-keeps-other-direction", EVS, "\t\t\t\td.AnalogNoteOn(identifier, analog.Note, analog.ChannelOffset, ie)\n\t\t\t}\n\t\t\td.AnalogNoteOff(identifierNeg, ie)", "\t\t\t\td.AnalogNoteOn(identifier, analog.Note, analog.ChannelOffset, ie)\n\t\t\t}", ["C08", "C01"]),
     ("c14-check-before-insert", EVS,
      "\t\td.keyTracker[ie.Event.Code] = struct{}{}\n\t\tok := d.checkExitSequence()", "\t\tok := d.checkExitSequence()\n\t\td.keyTracker[ie.Event.Code] = struct{}{}", ["C14"]),
     ("c14-not-swallowed", EVS, "\t\t\t// this simple hack prevents from hanging\n\t\t\treturn", "\t\t\t// this simple hack prevents from hanging", ["C14"]),
